@@ -585,7 +585,56 @@ def check_files(case, ctx):
     return None
 
 
+# ---- fromdicts over a generator: a one-shot source behind a spill file; repeated short looks must stay short ------------
+def generator_cases(tier):
+    for header_given in (True, False):
+        for k in (0, 1, 3, 6):
+            for takes in (1, 2, 3):
+                yield {"header_given": header_given, "k": k, "takes": takes}
+
+
+def check_generator(case, ctx):
+    hdr = list(catalog.H)
+    block = [[1, "a", 2, "x"], [None, "b", None, "y"], [3, "c", 1, "xz"]]
+    k, sample = case["k"], 4
+    res = []
+    for n in (60, 6000):
+        src = Cyclic(hdr, block, n)
+
+        def dicts(src=src):
+            it = iter(src)
+            next(it)
+            for r in it:
+                yield dict(zip(hdr, r))
+        try:
+            view = etl.fromdicts(dicts(), header=hdr) if case["header_given"] else etl.fromdicts(dicts(), sample=sample)
+            c0 = src.data_pulls
+            outs, pulls = [], []
+            for _ in range(case["takes"]):
+                it = iter(view)
+                outs.append([tuple(r) for r in itertools.islice(it, k + 1)])
+                del it
+                pulls.append(src.data_pulls)
+        except Exception as ex:
+            return exc_fail("generators/fromdicts", ex)
+        res.append((c0, outs, pulls))
+    ctx.label("header-given" if case["header_given"] else "header-sampled", "takes:%d" % case["takes"])
+    ctx.nontrivial(k >= 1 and case["takes"] >= 2)
+    (c1, o1, p1), (c2, o2, p2) = res
+    if c1 or c2:
+        return Fail("generators/fromdicts/construct-pulls", "construction pulled %d / %d dicts from the generator" % (c1, c2))
+    if o1 != o2 or any(o != o2[0] for o in o2):
+        return Fail("generators/fromdicts/rows-differ", "looks of %d items gave %r (60-row source) and %r (6000-row source)" % (k + 1, o1, o2))
+    if p1 != p2:
+        return Fail("generators/fromdicts/pulls-depend-on-length", "%d looks of %d items pulled %r dicts from a 60-row source but %r from a 6000-row source" % (case["takes"], k + 1, p1, p2))
+    bound = max(k, 0 if case["header_given"] else sample) + 3
+    if max(p2) > bound:
+        return Fail("generators/fromdicts/pulls-exceed-bound", "%d looks of %d items each pulled %r dicts in total from the generator (bound %d)" % (case["takes"], k + 1, p2, bound))
+    return None
+
+
 SUBS = [
+    Sub("generators", check_generator, enumerate=generator_cases),
     Sub("construct", check_construct, strategy=construct_case, quick=6000, thorough=60000),
     Sub("stream", check_stream, strategy=stream_case, quick=4000, thorough=80000),
     Sub("binary", check_binary, enumerate=binary_cases),
